@@ -1565,6 +1565,12 @@ impl Reference
 					{
 						Some(ReferenceStep::Element { is_endless, .. }) =>
 						{
+							// A parameter that points to a sized array is
+							// indexed through the array, like a member.
+							if is_immediate_parameter && !is_endless
+							{
+								indices.push(llvm.const_i32(0));
+							}
 							!is_endless
 						}
 						Some(ReferenceStep::Member { .. }) =>
